@@ -37,7 +37,11 @@
      H_from  cn_from cn = tcp_transport lc: the connection is an ACCEPTED one.  NEEDED: for a connection the
              proxy dialled cn_from is a KTcpConn transport with port 0; the model would compare the Route
              entry / the Request-URI with that port while the judge compares with lc_tcp.
-     ports   (0 < lc_udp lc \/ 0 < lc_tcp lc) instead of (0 < lc_udp lc): the listen entry has a first
+     H_mark  (li < dial_mark)%nat: the judge's record is one of an ACCEPTED connection.  The judge files the
+             connections the proxy dialled with the listen entry + SpecProxy.dial_mark and, for a request read
+             on one of those, takes no Route entry for the proxy's own and no Request-URI for the listener's
+             address:port (j_choose_d true); example t3_dialled_not_own, not a theorem here.
+     ports  (0 < lc_udp lc \/ 0 < lc_tcp lc) instead of (0 < lc_udp lc): the listen entry has a first
              transport (the one the backends see in Via / Record-Route); WEAKER than the UDP hypothesis.
      step level only:
      H_find  find (fun y => Nat.eqb (cn_id y) cid) (st_conns st) = Some cn  (the record the model uses),
@@ -374,7 +378,7 @@ Qed.
 
 (* ================================================================== D. the bridge *)
 Lemma judge_C03_tcp_unfold pc st cid li ip port data outs closed jin lc :
-  find (fun y => Nat.eqb (fst y) cid) (js_conns st) = Some (cid, (li, ip, port)) ->
+  find (fun y => Nat.eqb (fst y) cid) (js_conns st) = Some (cid, (li, ip, port)) -> (li < dial_mark)%nat ->
   j_read data = Some jin -> nth_opt (c_listens (pc_cfg pc)) li = Some lc ->
   judge_C03_event pc st (EvTcpData cid data) outs closed =
   if (jm_has_cl jin && single_message jin)%bool then
@@ -398,8 +402,10 @@ Lemma judge_C03_tcp_unfold pc st cid li ip port data outs closed jin lc :
     end
   else O.
 Proof.
-  intros Fd J N. unfold judge_C03_event. cbv beta iota zeta delta [j_input]. rewrite Fd.
-  cbv beta iota zeta delta [ji_data ji_li ji_tcp]. rewrite J, N. cbv beta iota. cbn [negb orb]. reflexivity.
+  intros Fd HMk J N. unfold judge_C03_event. rewrite (C07_bridge.j_input_accepted st cid li ip port data Fd HMk).
+  cbv beta iota zeta delta [ji_data ji_li ji_tcp]. rewrite J, N.
+  rewrite (C07_bridge.ji_dialled_accepted st cid li ip port data Fd HMk).
+  cbv beta iota. cbn [negb orb]. reflexivity.
 Qed.
 
 (* THE BRIDGE, process_message level, for a request read on the accepted connection [cn] (the model is run
@@ -411,6 +417,7 @@ Theorem C03_judge_bridge_tcp_msg_ex :
   forall pc stj cid li lc cn data closed jin m rest e x x' l,
   nth_opt (c_listens (pc_cfg pc)) li = Some lc -> e_cfg e = pc_cfg pc -> e_lc e = lc ->
   find (fun y => Nat.eqb (fst y) cid) (js_conns stj) = Some (cid, (li, cn_peer cn, cn_peer_port cn)) ->
+  (li < dial_mark)%nat ->
   cn_from cn = {| t_kind := KTcpListen; t_addr := lc_addr lc; t_port := lc_tcp lc |} ->
   j_read data = Some jin -> parse_message data = Ok (m, rest) ->
   route_domain_in (RS m) -> to_domain m -> ruri_domain jin ->
@@ -429,11 +436,11 @@ Theorem C03_judge_bridge_tcp_msg_ex :
        (map labelled (filter (visible (pc_udp_endpoints pc)) pre)) closed = 0%nat).
 Proof.
   intros pc stj cid li lc cn data closed jin m rest e x x' l
-         N He Hlc Fd Hcf J P Dom DT DR HO RO Hport Hfx1 Hfx2 Nl PA BO Hslot Htso Hfit H.
+         N He Hlc Fd HMk Hcf J P Dom DT DR HO RO Hport Hfx1 Hfx2 Nl PA BO Hslot Htso Hfit H.
   change (cn_from cn = tcp_transport lc) in Hcf. rewrite Hcf in H, Hfit.
   destruct (C03_at_most_one _ _ _ _ _ _ _ _ _ H) as (pre & O & C).
   exists pre. split; [exact O|]. split; [exact C|]. intros Htcp.
-  rewrite (judge_C03_tcp_unfold pc stj cid li (cn_peer cn) (cn_peer_port cn) data _ closed jin lc Fd J N).
+  rewrite (judge_C03_tcp_unfold pc stj cid li (cn_peer cn) (cn_peer_port cn) data _ closed jin lc Fd HMk J N).
   change (msgs_of (map labelled (filter (visible (pc_udp_endpoints pc)) pre))) with (obs pc pre).
   destruct (jm_has_cl jin && single_message jin)%bool; [|reflexivity].
   destruct (j_request jin) as [q|] eqn:Q; [|reflexivity].
@@ -530,6 +537,7 @@ Theorem C03_judge_bridge_tcp_msg :
   forall pc stj cid li lc cn data closed jin m rest e x x' l pre,
   nth_opt (c_listens (pc_cfg pc)) li = Some lc -> e_cfg e = pc_cfg pc -> e_lc e = lc ->
   find (fun y => Nat.eqb (fst y) cid) (js_conns stj) = Some (cid, (li, cn_peer cn, cn_peer_port cn)) ->
+  (li < dial_mark)%nat ->
   cn_from cn = {| t_kind := KTcpListen; t_addr := lc_addr lc; t_port := lc_tcp lc |} ->
   j_read data = Some jin -> parse_message data = Ok (m, rest) ->
   route_domain_in (RS m) -> to_domain m -> ruri_domain jin ->
@@ -548,9 +556,9 @@ Theorem C03_judge_bridge_tcp_msg :
     (map labelled (filter (visible (pc_udp_endpoints pc)) pre)) closed = 0%nat.
 Proof.
   intros pc stj cid li lc cn data closed jin m rest e x x' l pre
-         N He Hlc Fd Hcf J P Dom DT DR HO RO Hport Hfx1 Hfx2 Nl PA BO Hslot Htso Hfit H EO Htcp.
+         N He Hlc Fd HMk Hcf J P Dom DT DR HO RO Hport Hfx1 Hfx2 Nl PA BO Hslot Htso Hfit H EO Htcp.
   destruct (C03_judge_bridge_tcp_msg_ex pc stj cid li lc cn data closed jin m rest e x x' l
-              N He Hlc Fd Hcf J P Dom DT DR HO RO Hport Hfx1 Hfx2 Nl PA BO Hslot Htso Hfit H) as (pre' & O & _ & K).
+              N He Hlc Fd HMk Hcf J P Dom DT DR HO RO Hport Hfx1 Hfx2 Nl PA BO Hslot Htso Hfit H) as (pre' & O & _ & K).
   rewrite O in EO. apply app_inv_head in EO. subst pre'. apply K, Htcp.
 Qed.
 
@@ -599,6 +607,7 @@ Theorem C03_judge_bridge_tcp_step :
   nth_opt (c_listens (pc_cfg pc)) li = Some lc ->
   find (fun y => Nat.eqb (cn_id y) cid) (st_conns st) = Some cn ->
   find (fun y => Nat.eqb (fst y) cid) (js_conns stj) = Some (cid, (li, cn_peer cn, cn_peer_port cn)) ->
+  (li < dial_mark)%nat ->
   cn_li cn = li -> cn_open cn = true ->
   cn_from cn = {| t_kind := KTcpListen; t_addr := lc_addr lc; t_port := lc_tcp lc |} ->
   j_read data = Some jin -> parse_message data = Ok (m, rest) -> trim_left rest = [] ->
@@ -616,7 +625,7 @@ Theorem C03_judge_bridge_tcp_step :
     (map labelled (filter (visible (pc_udp_endpoints pc)) outs)) closed = 0%nat.
 Proof.
   intros pc stj fx now br st st' outs cid li lc cn p data closed jin m rest
-         N Fc Fd Hli Hop Hcf J P Hr Dom DT DR HO RO Hport Hfx1 Hfx2 AG Np BO Hslot Htso Hfit H Htcp.
+         N Fc Fd HMk Hli Hop Hcf J P Hr Dom DT DR HO RO Hport Hfx1 Hfx2 AG Np BO Hslot Htso Hfit H Htcp.
   subst li.
   destruct (AG (cn_li cn) p Np) as (l & Nl & PA).
   unfold proxy_step in H. rewrite Fc, Hop in H. cbv beta iota zeta in H. rewrite N in H.
@@ -625,7 +634,7 @@ Proof.
   match type of H with context [process_message ?e ?a ?b ?f ?r ?t ?mm ?xx] =>
     destruct (process_message e a b f r t mm xx) as [x'| |] eqn:PM; try discriminate H;
     destruct (C03_judge_bridge_tcp_msg_ex pc stj cid (cn_li cn) lc cn data closed jin m rest e xx x' l
-                N eq_refl eq_refl Fd Hcf J P Dom DT DR HO RO Hport Hfx1 Hfx2 Nl PA (BO l Nl) Hslot Htso Hfit PM)
+                N eq_refl eq_refl Fd HMk Hcf J P Dom DT DR HO RO Hport Hfx1 Hfx2 Nl PA (BO l Nl) Hslot Htso Hfit PM)
       as (pre & O & _ & K) end.
   cbn [x_outs app] in O. injection H as _ <-. rewrite O in *. apply K. exact Htcp.
 Qed.
@@ -637,6 +646,7 @@ Corollary C03_judge_bridge_tcp_step_no_tcp :
   nth_opt (c_listens (pc_cfg pc)) li = Some lc ->
   find (fun y => Nat.eqb (cn_id y) cid) (st_conns st) = Some cn ->
   find (fun y => Nat.eqb (fst y) cid) (js_conns stj) = Some (cid, (li, cn_peer cn, cn_peer_port cn)) ->
+  (li < dial_mark)%nat ->
   cn_li cn = li -> cn_open cn = true ->
   cn_from cn = {| t_kind := KTcpListen; t_addr := lc_addr lc; t_port := lc_tcp lc |} ->
   j_read data = Some jin -> parse_message data = Ok (m, rest) -> trim_left rest = [] ->
@@ -653,9 +663,9 @@ Corollary C03_judge_bridge_tcp_step_no_tcp :
     (map labelled (filter (visible (pc_udp_endpoints pc)) outs)) closed = 0%nat.
 Proof.
   intros pc stj fx now br st st' outs cid li lc cn p data closed jin m rest
-         N Fc Fd Hli Hop Hcf J P Hr Dom DT DR HO RO Hport Hfx1 Hfx2 AG Np BO Hslot Htso Hfit H NT.
+         N Fc Fd HMk Hli Hop Hcf J P Hr Dom DT DR HO RO Hport Hfx1 Hfx2 AG Np BO Hslot Htso Hfit H NT.
   apply (C03_judge_bridge_tcp_step pc stj fx now br st st' outs cid li lc cn p data closed jin m rest
-           N Fc Fd Hli Hop Hcf J P Hr Dom DT DR HO RO Hport Hfx1 Hfx2 AG Np BO Hslot Htso Hfit H).
+           N Fc Fd HMk Hli Hop Hcf J P Hr Dom DT DR HO RO Hport Hfx1 Hfx2 AG Np BO Hslot Htso Hfit H).
   intros q ip port Q JC _. exfalso. exact (NT q ip port Q JC).
 Qed.
 
@@ -762,7 +772,7 @@ Proof.
   destruct Hrun as (s & Hrun). unfold t3_step in Hrun.
   refine (C03_judge_bridge_tcp_step t3_pc t3_js1 all_fixed 1000%Z (branch_of 1) t3_st1 s (t3_outs d)
             0%nat 0%nat t3_lc t3_cn t3_p1 d [] (jin_of d) (parsed d) crlf
-            eq_refl t3_hyp_model_conn t3_hyp_judge_conn eq_refl eq_refl eq_refl J P eq_refl Dom DT DR _ _ _
+            eq_refl t3_hyp_model_conn t3_hyp_judge_conn C07_bridge.zero_below_mark eq_refl eq_refl eq_refl J P eq_refl Dom DT DR _ _ _
             eq_refl eq_refl t3_pools t3_hyp_proxy _ (proj1 t3_hyp_slots) (proj2 t3_hyp_slots) Hfit Hrun _).
   - intros n ip A. discriminate A.
   - apply routes_ok_b_sound. vm_compute. reflexivity.
@@ -943,6 +953,53 @@ Example t3_port_matters :
     (map labelled (filter (visible (pc_udp_endpoints t3_pc)) (t3_outs t3_req_self))) [] = 2%nat.
 Proof. repeat split; vm_compute; reflexivity. Qed.
 
+(* SENSITIVITY 3: DIALLED vs ACCEPTED connections.  A request whose first Route entry names the listener's
+   address and its TCP port, then 10.0.0.9:5070.
+   (a) it arrives on a connection THE PROXY DIALLED (connection 0 of a fresh proxy, opened at event 0 towards the
+       TCP next hop 10.0.0.7:5080 of a datagram): that connection is read by its own transport (listener
+       address, port 0 in the model / an OS-chosen port in the code), so the entry is NOT the proxy's own; it is
+       the next hop: a datagram to 10.0.0.1:5062, where the driver owns no socket: nothing is observed.  The
+       judge, whose bookkeeping filed connection 0 with the mark (conn_dialled), reads the same hop and accepts
+       (the judge that did not tell dialled from accepted connections answered 3 here: last conjunct of (c)).
+       The Route set relayed is the one the judge of C13 expects as well.
+   (b) the same bytes on the ACCEPTED connection 0 of t3_st1: the entry is own, popped; relayed to
+       10.0.0.9:5070; verdict 0.
+   (c) the two bookkeepings do not accept each other's run: 2 (relayed although ... elsewhere) and 3. *)
+Definition t3_req_own2 : bytes :=
+  s2b "INVITE sip:bob@elsewhere.example SIP/2.0" ++ crlf ++
+  s2b "Route: <sip:10.0.0.1:5062;lr>,<sip:10.0.0.9:5070;lr>" ++ crlf ++ t3_tail.
+Definition t3d_run (st : state) (n : nat) (ev : event) : state * list output :=
+  match proxy_step all_fixed t3_cfg 1000 (branch_of n) st ev with Ok r => r | _ => (st, []) end.
+Definition t3d_shown (outs : list output) : list (bytes * bytes) :=
+  map labelled (filter (visible (pc_udp_endpoints t3_pc)) outs).
+Definition t3d_ev0 : event := EvUdp 0 (s2b "10.0.0.9") 5070%Z b3_req_tcp.
+Definition t3d_st1 : state := fst (t3d_run t3_st0 0 t3d_ev0).
+Definition t3d_outs0 : list output := snd (t3d_run t3_st0 0 t3d_ev0).
+Definition t3d_js1 : jstate := js_step_c (js_init t3_cfg) t3d_ev0 (t3d_shown t3d_outs0) [].
+Definition t3d_ev1 : event := EvTcpData 0 t3_req_own2.
+Definition t3d_st2 : state := fst (t3d_run t3d_st1 1 t3d_ev1).
+Definition t3d_outs1 : list output := snd (t3d_run t3d_st1 1 t3d_ev1).
+Example t3_dialled_not_own :
+  (* (a) *)
+  proxy_step all_fixed t3_cfg 1000 (branch_of 0) t3_st0 t3d_ev0 = Ok (t3d_st1, t3d_outs0) /\
+  proxy_step all_fixed t3_cfg 1000 (branch_of 1) t3d_st1 t3d_ev1 = Ok (t3d_st2, t3d_outs1) /\
+  map (fun o => fst (labelled o)) t3d_outs0 = [s2b "dial:10.0.0.7:5080"; s2b "conn:0"] /\
+  judge_C03_event t3_pc (js_init t3_cfg) t3d_ev0 (t3d_shown t3d_outs0) [] = 0%nat /\
+  js_conns t3d_js1 = [(0%nat, (dial_mark, s2b "10.0.0.7", 5080%Z))] /\ conn_dialled t3d_js1 0 = true /\
+  map (fun o => fst (labelled o)) t3d_outs1 = [s2b "udp:10.0.0.1:5062"] /\ t3d_shown t3d_outs1 = [] /\
+  judge_C03_event t3_pc t3d_js1 t3d_ev1 (t3d_shown t3d_outs1) [] = 0%nat /\
+  map (fun o => option_map (fun om => j_flat is_route (jm_headers om)) (j_read (snd o))) t3d_outs1
+    = [Some [s2b "<sip:10.0.0.9:5070;lr>"]] /\
+  judge_C13_event t3_pc t3d_js1 t3d_ev1 (map labelled t3d_outs1) [] = 0%nat /\
+  (* (b) *)
+  map (fun o => fst (labelled o)) (t3_outs t3_req_own2) = [s2b "udp:10.0.0.9:5070"] /\
+  conn_dialled t3_js1 0 = false /\
+  judge_C03_event t3_pc t3_js1 t3d_ev1 (t3d_shown (t3_outs t3_req_own2)) [] = 0%nat /\
+  (* (c) *)
+  judge_C03_event t3_pc t3d_js1 t3d_ev1 (t3d_shown (t3_outs t3_req_own2)) [] = 2%nat /\
+  judge_C03_event t3_pc t3_js1 t3d_ev1 (t3d_shown t3d_outs1) [] = 3%nat.
+Proof. repeat match goal with |- _ /\ _ => split end; vm_compute; reflexivity. Qed.
+
 Print Assumptions choose_agree_gen.
 Print Assumptions choice_c.
 Print Assumptions pm_conn_udp_slot.
@@ -956,3 +1013,4 @@ Print Assumptions t3_route_accepted.
 Print Assumptions t3_backend_accepted.
 Print Assumptions t3_self_accepted.
 Print Assumptions t3_tcp_accepted.
+Print Assumptions t3_dialled_not_own.
